@@ -100,12 +100,33 @@ bool ConfigData::SaveToFile(const path& file_path) {
   RIME_VERIF_CRASHPOINT("config.save:before_open");
   VerifCrashPointAtExit verif_closed{"config.save:closed"};
 #endif
-  std::ofstream out(file_path.c_str());
+  // write a temporary file and rename it into place: an interrupted save must
+  // never leave a truncated file, which would still begin with a valid
+  // `__build_info` and be taken for an up-to-date build.
+  std::filesystem::path temp_path(file_path);
+  temp_path += ".tmp";
+  {
+    std::ofstream out(temp_path.c_str());
 #ifdef RIME_VERIF
-  RIME_VERIF_CRASHPOINT("config.save:opened");
-  VerifCrashPointAtExit verif_emitted{"config.save:emitted"};
+    RIME_VERIF_CRASHPOINT("config.save:opened");
+    VerifCrashPointAtExit verif_emitted{"config.save:emitted"};
 #endif
-  return SaveToStream(out);
+    if (!SaveToStream(out)) {
+      return false;
+    }
+    out.close();
+    if (out.fail()) {
+      LOG(ERROR) << "error writing '" << temp_path << "'.";
+      return false;
+    }
+  }
+  std::error_code ec;
+  std::filesystem::rename(temp_path, file_path, ec);
+  if (ec) {
+    LOG(ERROR) << "error saving '" << file_path << "': " << ec.message();
+    return false;
+  }
+  return true;
 }
 
 bool ConfigData::IsListItemReference(const string& key) {
